@@ -46,6 +46,14 @@ def features():
             yield ("clock-cmp-fp-invariant:" + fid, "%s:%s:pos%d" % (op, "rev" if rev else "fwd", pos),
                    dict(inv=conj(pos, cmp_)), "", {"symbolic"})
         yield ("clock-cmp-fp-invariant:" + fid, "%s:%s:alone" % (op, "rev" if rev else "fwd"), dict(inv=cmp_), "", {"symbolic"})
+    # the comparison below other connectives / in other operand shapes (accepted placements only count)
+    for (fid, fp) in fps:
+        for wid, g in (("or-clock-free", "i == 0 || x < %s"), ("imply", "i == 0 imply x < %s"), ("forall", "forall (k : int[0,1]) x < %s"),
+                       ("right-nested-and", "i == 0 && (x < %s && i == 1)"), ("parentheses", "((x < %s))"), ("neq-conjunct", "i != 1 && x >= %s"),
+                       ("inline-if-bound", "x < (i == 0 ? %s : 2.5)"), ("sum-bound", "x < %s + i"), ("nested-forall-and", "forall (k : int[0,1]) (i == k && x < %s)")):
+            yield ("clock-cmp-fp-guard:" + fid, "wrapped:" + wid, dict(guard=g % fp), "", {"symbolic"})
+            yield ("clock-cmp-fp-invariant:" + fid, "wrapped:" + wid, dict(inv=g % fp), "", {"symbolic"})
+        yield ("clock-cmp-fp-guard:" + fid, "clock-array-element", dict(decl="clock x; clock xs[2]; hybrid clock h;", guard="xs[1] < %s" % fp), "", {"symbolic"})
     # clock difference compared with fp
     yield ("clock-diff-cmp-fp", "guard", dict(decl="clock x, y; hybrid clock h;", guard="x - y < 1.5"), "", {"symbolic"})
     # assignments from floating point, at every position of an update list
@@ -56,7 +64,18 @@ def features():
             parts[pos] = stmt
             yield ("assign-fp:" + tid, "update-pos%d" % pos, dict(assign=", ".join(parts)), "", {"symbolic"})
         yield ("assign-fp:" + tid, "update-alone", dict(assign=stmt), "", {"symbolic"})
+    # assignments hidden in functions (template-local and global), in statements, through inline-if
+    for tid, stmt in (("clock=literal", "x = 1.5;"), ("double-var=literal", "d = 2.5;"), ("double-local", "double t = 0.5; t = t * 2.0;"),
+                      ("in-if", "if (i == 0) { d = 2.5; }"), ("in-loop", "for (k : int[0,1]) { d = d * 2.0; }"),
+                      ("in-nested-block", "{ { d = 2.5; } }"), ("in-while", "while (i < 1) { i++; d = 0.5; }")):
+        if "x =" not in stmt:
+            yield ("assign-fp-in-function:" + tid, "global-function", dict(assign="up()"), "void up() { %s }" % stmt, {"symbolic"})
+        yield ("assign-fp-in-function:" + tid, "template-local-function", dict(decl="clock x; hybrid clock h; void up() { %s }" % stmt, assign="up()"),
+               "", {"symbolic"})
+    yield ("assign-fp:clock=inline-if", "update-alone", dict(assign="x = (i == 0 ? 1.5 : 2.5)"), "", {"symbolic"})
     # clock initialised with a floating point value
+    yield ("clock-init-fp", "template-local-clock-array", dict(decl="clock x; clock xs[2] = {1.5, 2.5}; hybrid clock h;"), "", {"symbolic"})
+    yield ("clock-init-fp", "global-clock-array", dict(), "clock gxs[2] = {1.5, 2.5};", {"symbolic"})
     yield ("clock-init-fp", "template-local", dict(decl="clock x = 1.5; hybrid clock h;"), "", {"symbolic"})
     yield ("clock-init-fp", "global", dict(), "clock gx = 1.5;", {"symbolic"})
     yield ("clock-init-fp", "template-local-double-var", dict(decl="clock x = d; hybrid clock h;"), "", {"symbolic"})
@@ -69,6 +88,10 @@ def features():
             yield ("rate:" + rid, "invariant-pos%d" % pos, dict(inv=" && ".join(parts)), "", {"symbolic"})
         yield ("rate:" + rid, "invariant-alone", dict(inv="x' == %s" % rate), "", {"symbolic"})
         yield ("rate:" + rid, "invariant-reversed", dict(inv="%s == x'" % rate), "", {"symbolic"})
+        yield ("rate:" + rid, "invariant-forall", dict(inv="forall (k : int[0,1]) x' == %s" % rate), "", {"symbolic"})
+        yield ("rate:" + rid, "invariant-parentheses", dict(inv="(x' == %s) && x <= 5" % rate), "", {"symbolic"})
+        yield ("rate:" + rid, "invariant-right-nested", dict(inv="x <= 5 && (i >= 0 && x' == %s)" % rate), "", {"symbolic"})
+        yield ("rate:" + rid, "invariant-clock-array", dict(decl="clock x; clock xs[2]; hybrid clock h;", inv="xs[1]' == %s" % rate), "", {"symbolic"})
     # dynamic templates
     yield ("dynamic-template", "declared", dict(), "dynamic Dy();", {"symbolic"})
     # non-broadcast channels
@@ -80,6 +103,8 @@ def features():
     yield ("chan", "template-local", dict(decl="clock x; hybrid clock h; chan c;"), "", {"stochastic"})
     yield ("chan", "template-local-array", dict(decl="clock x; hybrid clock h; chan c[2];"), "", {"stochastic"})
     yield ("chan", "template-local-used", dict(decl="clock x; hybrid clock h; chan c;", sync="c!"), "", {"stochastic"})
+    yield ("chan", "template-local-typedef-array", dict(decl="clock x; hybrid clock h; typedef chan Ch[2]; Ch cs;"), "", {"stochastic"})
+    yield ("chan", "global-struct-free-urgent-array", dict(), "urgent chan uc[2];", {"stochastic"})
     # priorities
     yield ("chan-priority", "global", dict(), "broadcast chan b2; chan priority bc < b2;", {"stochastic", "concrete"})
     yield ("chan-priority", "default", dict(), "chan priority bc < default;", {"stochastic", "concrete"})
@@ -173,6 +198,34 @@ def run_shard(arg):
             if len(part.samples) < 1:
                 part.sample({"feature": fid, "placement": plc, "methods": m})
     if i == 0:
+        # two restricting features for different methods in two different instantiated templates, both template orders:
+        # every restriction must be reported whichever template comes first
+        symf = [("clock-cmp-fp-guard", dict(guard="x < 1.5")), ("assign-fp", dict(assign="d = 2.5")), ("rate", dict(inv="x' == 2")),
+                ("clock-init-fp", dict(decl="clock x = 1.5; hybrid clock h;")), ("clock-cmp-fp-invariant", dict(inv="x <= 2.5"))]
+        stof = [("local-chan", dict(decl="clock x; hybrid clock h; chan c;")), ("local-chan-array", dict(decl="clock x; hybrid clock h; chan c[2];")),
+                ("chan-parameter", dict(params="chan &cp", sync="cp!"))]
+        for (sn, skw), (tn, tkw) in itertools.product(symf, stof):
+            for order in (0, 1):
+                ta, tb = T("T", **skw), T("U1", **tkw)
+                g = G0 + (" chan gc;" if tn == "chan-parameter" else "")
+                sysl = "P = T(); Q = U1(%s); system P, Q;" % ("gc" if tn == "chan-parameter" else "")
+                if tn == "chan-parameter":
+                    continue     # a global channel restricts on its own; only template-local channels isolate the interaction
+                doc = X.nta(g, [ta, tb] if order == 0 else [tb, ta], sysl)
+                r = X.run_docs(w, [doc], want=["noinv"])[0]
+                part.count()
+                key = "pair:%s+%s:order%d" % (sn, tn, order)
+                if engine.check_crash(part, PID, r, key, {"op": "xml", "buf": doc}) or not X.accepted(r):
+                    continue
+                part.nontrivial_case(key)
+                bad = [meth for meth in ("symbolic", "stochastic") if r["methods"][meth]]
+                if bad:
+                    part.outcome("restricted-method-reported-supported")
+                    part.violation("supported-despite:pair:%s+%s:%s" % (sn, tn, "+".join(bad)),
+                                   "%s: %s reported as supported although one instantiated template has %s and another has %s" % (key, bad, sn, tn),
+                                   {"op": "xml", "buf": doc})
+                else:
+                    part.outcome("restriction-reported")
         # declaration order / controls: reported as outcome classes
         for cid, kw in controls():
             for order in (0, 1):
